@@ -9,6 +9,7 @@ import (
 	"context"
 	goerr "errors"
 	"fmt"
+	"net"
 	"reflect"
 	"regexp"
 	"sort"
@@ -1247,6 +1248,7 @@ func init() {
 		if o.e == nil {
 			return
 		}
+		arrowReported := false
 		check := func(where string, e error) bool {
 			text := e.Error()
 			targets := []struct {
@@ -1263,6 +1265,17 @@ func init() {
 				for _, v := range []string{"%v", "%s"} {
 					o.evals++
 					if got := fmt.Sprintf(v, tg.v); got != text {
+						if opErrorArrowOnly(e, got, text) {
+							// recorded finding: the special-case printer of *net.OpError writes "src -> addr",
+							// (*net.OpError).Error() "src->addr".  Reported once per case; the remaining
+							// verbs are then checked against the text the engine prints.
+							if !arrowReported {
+								o.fail(fmt.Sprintf("%s of %s is not Error() (%s)", v, tg.name, where), "operror-arrow-spacing", firstDiff(got, text))
+								arrowReported = true
+							}
+							text = got
+							continue
+						}
 						o.fail(fmt.Sprintf("%s of %s is not Error() (%s)", v, tg.name, where), "", firstDiff(got, text))
 						return false
 					}
@@ -1426,7 +1439,7 @@ func specText(r *R) (string, bool) {
 		return r.S[0], false
 	case "newf", "assertf", "fmterrorf":
 		return specFmt(r.Fmt), false
-	case "errno":
+	case "errno", "foreignerrno":
 		return errnoText(r.I[0]), false
 	case "unimpl":
 		return r.S[2], false
@@ -1524,6 +1537,27 @@ func specText(r *R) (string, bool) {
 			return "", true
 		}
 		return r.S[0] + ": " + c, false
+	case "operror":
+		c, n := kid(0)
+		if n {
+			return "", true
+		}
+		s := r.S[0]
+		if r.S[1] != "" {
+			s += " " + r.S[1]
+		}
+		if r.S[2] != "" {
+			s += " " + r.S[2]
+		}
+		if r.S[3] != "" {
+			if r.S[2] != "" {
+				s += "->"
+			} else {
+				s += " "
+			}
+			s += r.S[3]
+		}
+		return s + ": " + c, false
 	case "uwrap":
 		c, n := kid(0)
 		if n {
@@ -2127,3 +2161,17 @@ func nonNil(l []string) []string {
 var _ = exthttp.GetHTTPCode
 var _ = extgrpc.GetGrpcCode
 var _ = oserror.IsTimeout
+
+// opErrorArrowOnly: got and want differ only by " -> " for "->" between the source and
+// the address of a *net.OpError of the tree that has both.
+func opErrorArrowOnly(e error, got, want string) bool {
+	fixed := got
+	found := false
+	visitAll(e, func(x error) {
+		if oe, ok := x.(*net.OpError); ok && oe.Source != nil && oe.Addr != nil {
+			found = true
+			fixed = strings.ReplaceAll(fixed, oe.Source.String()+" -> "+oe.Addr.String(), oe.Source.String()+"->"+oe.Addr.String())
+		}
+	})
+	return found && fixed == want
+}
